@@ -28,6 +28,17 @@ def shards(tier, seed):
     return out
 
 
+def _nesting(text):
+    d = m = 0
+    for ch in text:
+        if ch in "({[<":
+            d += 1
+            m = max(m, d)
+        elif ch in ")}]>" and d > 0:
+            d -= 1
+    return m
+
+
 def attempt(acc, text, inp, must_reject=None, path=None, lookup=None):
     """Compile once under the classifier. Returns 'ok' / 'rejected' / 'crash'."""
     from explorerscript.error import ParseError, SsbCompilerError
@@ -45,8 +56,13 @@ def attempt(acc, text, inp, must_reject=None, path=None, lookup=None):
         outcome = "rejected"
         acc.count("documented:" + type(e).__name__)
     except RecursionError:
+        # the interpreter's recursion limit is a resource limit for deeply nested inputs; for anything else (e.g. an import
+        # cycle that is not noticed) it is an undocumented exception type like any other
         outcome = "rejected"
         acc.count("recursion_error")
+        if _nesting(text) <= 40:
+            outcome = "crash"
+            acc.violation(gsig("undocumented-exception:RecursionError"), {"type": "RecursionError", "nesting_depth_of_input": _nesting(text)}, inp)
     except Exception as e:
         outcome = "crash"
     if monitors.COUNTS.get("K-COMPILE:exps:calls", 0) == calls:
@@ -98,8 +114,10 @@ def run_shard(shard, acc):
                 continue
             try:
                 ref_lts(p2)
-                textual = kind in ("stmt_in_message_switch", "label_in_with", "not_on_plain_bit", "not_on_plain_bit_while",
-                                   "missing_import", "recursive_macro_direct", "recursive_macro_indirect")
+                # (the reference only looks at a macro body when it expands a call: a violation inside a macro that is never
+                # called is judged by the kind, which is context free)
+                textual = kind.endswith("@macro") or kind in ("stmt_in_message_switch", "label_in_with", "not_on_plain_bit", "not_on_plain_bit_while",
+                                                             "missing_import", "recursive_macro_direct", "recursive_macro_indirect")
                 if not textual:
                     acc.count("inject_not_invalid_by_reference:" + kind)
                     continue
